@@ -104,8 +104,8 @@ func TestC01(t *testing.T) {
 	if hx.Thorough() {
 		thresholds = append(thresholds, 4097)
 	}
-	for i, th := range thresholds {
-		forced = append(forced, many(th-1+i%2, 3, 100, "dense"))
+	for _, th := range thresholds { // both sides of every threshold: th-1 selects the smaller window, th and th+1 the larger one
+		forced = append(forced, many(th-1, 3, 100, "dense"), many(th+1, 3, 100, "ramp"))
 	}
 	for i, f := range forced {
 		if hx.Thorough() || hx.Sharded(i) {
